@@ -28,7 +28,7 @@ var genSwitches = map[string]bool{
 	"default": false, "default.bool": false, "default.int": false, "default.num": false,
 	"default.string": false, "default.enum": false, "default.list": false, "default.struct": false,
 	"default.union": false, "default.onRequired": false, "def.enum": false, "name.case": false,
-	"array.of.struct": false, "dict.of.struct": false,
+	"array.of.struct": false,
 	// off by default: each is a known trouble spot of cog or of a schema language
 	"struct.empty":        true, // every front-end maps a property-less object to `any`
 	"def.scalar":          true, // named scalar alias (constraints on it are never validated, C08)
@@ -42,6 +42,13 @@ var genSwitches = map[string]bool{
 	"disc.ambiguous":      true, // union branches with two candidate discriminator fields (C03)
 	"default.emptyList":   true,
 	"default.struct.list": true, // a list inside a struct default (cog's CUE front-end: "closed lists are not supported")
+	// known-bad constructs: cog generates code that does not compile / import (see LAB.md, "Known failures")
+	"dict.of.struct":          true, // map whose values are structs/unions/maps of those: strict unmarshaller leaves `strconv` unused
+	"default.list.nonString":  true, // list default of numbers/bools is emitted as []string{…}
+	"enumI.signCollision":     true, // 1 and -1 in one integer enum: member names collide (JSON Schema / OpenAPI)
+	"def.enum.single":         true, // named one-member string enum: CUE reads a constant, references to it break the Go output
+	"default.struct.enumField": true, // struct default overriding an enum-typed member: Go type `unknown`
+	"name.defCase":            true, // definition names like sub_item / dataPoint: Python refers to the unconverted name
 }
 
 func defaultGenOpts() GenOpts {
@@ -195,8 +202,14 @@ func (g *srcGen) fillAll() {
 			ty = st
 		case "enumS":
 			ty = g.genEnumS()
+			for g.o.avoid("def.enum.single") && len(ty.EnumS) < 2 {
+				ty = g.genEnumS()
+			}
 		case "enumI":
 			ty = g.genEnumI()
+			for g.o.avoid("def.enum.single") && len(ty.EnumI) < 2 {
+				ty = g.genEnumI()
+			}
 		case "scalar":
 			if g.r.chance(50) {
 				ty = g.genInt()
@@ -219,7 +232,7 @@ func (g *srcGen) fillAll() {
 
 func (g *srcGen) newDef(kind string) string {
 	pool := auxNames
-	if !g.o.avoid("name.case") && g.r.chance(20) {
+	if !g.o.avoid("name.defCase") && g.r.chance(20) {
 		pool = auxNamesCase
 	}
 	name := ""
@@ -294,6 +307,9 @@ func (g *srcGen) genField(name string, depth int) Field {
 	// back references need an optional field or a collection in between (CUE reports a structural
 	// cycle for a required `null | #Self` chain)
 	f.Ty = g.genTy(depth+1, !f.Required)
+	if f.Ty.Kind == SAny {
+		f.Nullable = false // `any` admits null already
+	}
 	return f
 }
 
@@ -356,7 +372,13 @@ func (g *srcGen) genTy(depth int, guarded bool) *Src {
 	case "array":
 		return srcArray(g.genTy(depth+1, true))
 	case "dict":
-		return srcDict(g.genTy(depth+1, true))
+		for try := 0; try < 8; try++ {
+			e := g.genTy(depth+1, true)
+			if !g.o.avoid("dict.of.struct") || !g.structLike(e) {
+				return srcDict(e)
+			}
+		}
+		return srcDict(g.genLeaf())
 	case "struct.nested":
 		return g.genStruct(depth, false)
 	case "oneOfScalars":
@@ -365,6 +387,25 @@ func (g *srcGen) genTy(depth int, guarded bool) *Src {
 		return g.genOneOfStructs()
 	}
 	return srcBool()
+}
+
+// structLike: the element kinds for which a Go map triggers the unused-strconv defect of the
+// strict unmarshaller (struct, reference to a struct, any union, or a map of those).
+func (g *srcGen) structLike(e *Src) bool {
+	switch e.Kind {
+	case SStruct, SOneOfStructs, SOneOfScalars:
+		return true
+	case SDict:
+		return g.structLike(e.Elem)
+	case SRef:
+		switch g.pendKind[e.Ref] {
+		case "struct", "branch":
+			return true
+		case "collection":
+			return true
+		}
+	}
+	return false
 }
 
 func (g *srcGen) genLeaf() *Src {
@@ -577,7 +618,7 @@ func (g *srcGen) genEnumI() *Src {
 		if g.r.chance(10) {
 			v = int64(g.r.intn(2000)) - 1000
 		}
-		if seen[v] {
+		if seen[v] || (g.o.avoid("enumI.signCollision") && seen[-v]) {
 			continue
 		}
 		seen[v] = true
@@ -833,6 +874,9 @@ func (g *srcGen) force(tag string) {
 				return
 			}
 			t = srcArray(pick(g.r, []*Src{srcString(), srcInt(64, true, nil, nil), srcBool(), srcNum(64, nil, nil)}))
+			if o.avoid("default.list.nonString") {
+				t = srcArray(srcString())
+			}
 		case "default.struct":
 			t = &Src{Kind: SStruct, Fields: []Field{
 				{Name: "a", Ty: srcString(), Required: g.r.chance(50)},
@@ -1007,6 +1051,9 @@ func (g *srcGen) defaultFor(dg *docGen, ty *Src) (JV, bool) {
 	if g.o.avoid(tag) {
 		return JV{}, false
 	}
+	if g.d.singleton(t, 4) && t.Kind != SStruct {
+		return JV{}, false // a default on a one-valued type says nothing (and CUE front-end chokes on `31 | *31`)
+	}
 	switch t.Kind {
 	case SBool, SInt, SNum, SEnumS, SEnumI:
 		return dg.val(t, 0), true
@@ -1017,6 +1064,9 @@ func (g *srcGen) defaultFor(dg *docGen, ty *Src) (JV, bool) {
 		return dg.val(t, 0), true
 	case SArray:
 		if !isPlainScalar(t.Elem) {
+			return JV{}, false
+		}
+		if g.o.avoid("default.list.nonString") && t.Elem.Kind != SString {
 			return JV{}, false
 		}
 		n := 1 + g.r.intn(3)
@@ -1032,6 +1082,9 @@ func (g *srcGen) defaultFor(dg *docGen, ty *Src) (JV, bool) {
 		out := jObj()
 		idx := []int{}
 		for i, f := range t.Fields {
+			if rt := g.d.resolve(f.Ty); rt != nil && (rt.Kind == SEnumS || rt.Kind == SEnumI) && g.o.avoid("default.struct.enumField") {
+				continue
+			}
 			if isPlainScalar(g.d.resolve(f.Ty)) || (!g.o.avoid("default.struct.list") && f.Ty.Kind == SArray && isPlainScalar(f.Ty.Elem)) {
 				idx = append(idx, i)
 			}
